@@ -122,7 +122,7 @@ fn announces_s(m: &Message, solicited: bool, p: &Planned) -> bool {
                 && r.name.eq_ignore_case(&p.ty)
                 && matches!(&r.rdata, RData::Ptr(n) if n.eq_ignore_case(&p.fullname))
         })
-        && (!solicited || m.answers.iter().any(|r| r.rtype == T_SRV && r.name.eq_ignore_case(&p.fullname)))
+        && (!solicited || (m.additionals.is_empty() && m.answers.iter().any(|r| r.rtype == T_SRV && r.name.eq_ignore_case(&p.fullname))))
 }
 
 fn mentions_instance(m: &Message, p: &Planned) -> bool {
